@@ -141,7 +141,7 @@ class Kernel:
         self.at(self.now + int(d_us), fn, *args)
 
     # ------------------------------------------------------------- processes
-    def spawn(self, name, role, argv, addrs, env=None, san_env=None, stdin_data=None, stdin_closed=False):
+    def spawn(self, name, role, argv, addrs, env=None, san_env=None, stdin_data=None, stdin_closed=False, stdin_tty_keys=None):
         p = Proc(name, role)
         p.addrs = list(addrs)
         a, b = socket.socketpair(socket.AF_UNIX, socket.SOCK_STREAM)
@@ -166,6 +166,26 @@ class Kernel:
         if argv and os.path.basename(str(argv[0])) == "valgrind" and p.logdir:
             argv = [argv[0], "--log-file=%s/vg.%%p" % p.logdir] + list(argv[1:])
         stdin = subprocess.DEVNULL
+        tty_master = None
+        if stdin_tty_keys is not None:
+            # standard input is a terminal (a pty); the keystrokes are typed a moment after the start, when the program has
+            # had time to print its prompt and set the terminal modes it wants.  (Real time, the only place in the harness:
+            # typing too early merely lets the default line discipline handle the keys, it cannot produce an alarm.)
+            import pty
+            import threading
+            import time as _time
+            tty_master, tty_slave = pty.openpty()
+            stdin = tty_slave
+
+            def _type(fd=tty_master, keys=bytes(stdin_tty_keys)):
+                _time.sleep(0.4)
+                try:
+                    for i in range(len(keys)):
+                        os.write(fd, keys[i:i + 1])
+                        _time.sleep(0.002)
+                except OSError:
+                    pass
+            threading.Thread(target=_type, daemon=True).start()
         if stdin_data is not None:
             # what the program finds on its standard input (e.g. a password piped in), then end of file
             rfd, wfd = os.pipe()
@@ -179,6 +199,9 @@ class Kernel:
                                    preexec_fn=(lambda: os.close(0)) if stdin_closed else None)
         if stdin_data is not None:
             os.close(rfd)
+        if tty_master is not None:
+            os.close(tty_slave)
+            p.tty_master = tty_master
         if stderr is not subprocess.DEVNULL:
             stderr.close()
         b.close()
@@ -566,6 +589,12 @@ class Kernel:
                 p.sock.close()
             except OSError:
                 pass
+            if getattr(p, "tty_master", None) is not None:
+                try:
+                    os.close(p.tty_master)
+                except OSError:
+                    pass
+                p.tty_master = None
 
     # ---------------------------------------------------------------- helpers
     def sanitizer_report(self, p):
